@@ -18,7 +18,7 @@ import (
 )
 
 // Sizes: number of jobs and length of the filler strings per size class.
-var Sizes = map[string][2]int{"empty": {0, 0}, "tiny": {1, 4}, "small": {5, 40}, "medium": {40, 300}, "large": {150, 1000}, "huge": {500, 2500}}
+var Sizes = map[string][2]int{"empty": {0, 0}, "tiny": {1, 4}, "small": {5, 40}, "medium": {40, 300}, "large": {150, 1000}, "huge": {500, 2500}, "giant": {2600, 2500}}
 
 var pool = func() []rune {
 	const alpha = "abcdefghijklmnopqrstuvwxyz ABCDEFGHIJKLMNOPQRSTUVWXYZ0123456789\"\\\n\t{}[]:,äöü€"
